@@ -163,6 +163,7 @@ def check_config(case):
         return out
 
     crit = _critical(hol, weekend)
+    realhol = [h for h in hol if WD[h] not in weekend]           # listed holidays that are not weekend days anyway
     if not hol:
         out.cls('no-holiday')
     elif not crit:
@@ -203,6 +204,8 @@ def check_config(case):
             e = DTS[table[n]]
             path = 'loop' if abs(n) <= 1 else 'table'
             sgn = (n > 0) - (n < 0)
+            lo, hi = min(table[0], table[n], i), max(table[0], table[n], i)
+            out.cls('%s:%s-path-%s' % (adj, path, 'over-holiday' if any(lo <= h <= hi for h in realhol) else 'plain'))
             ok, r = impl(cal.add, t, n)
             if not ok or r != e:
                 bad('add-wrong', '%s add(t, %d) expected %s (the %d-th business day from adjust(t)=%s) observed %s' % (
@@ -220,8 +223,6 @@ def check_config(case):
                 ok, got = impl(cal.dt_bump, t, '%db' % n)
                 if not ok or got != e:
                     bad('dt_bump-wrong', "%s dt_bump(t, '%db') expected %s observed %s" % (tl, n, fmt(e), fmt(got)), op='dt_bump', path=path, sign=sgn)
-        out.cls('%s:loop-path' % adj)
-        out.cls('%s:table-path' % adj)
         # ---- single-step path against the indexed path
         for s in (1, -1):
             e = DTS[table[2 * s]]
@@ -269,12 +270,13 @@ class Registry(BfsSuite):
     def __init__(self, depth):
         BfsSuite.__init__(
             self, 'registry', depth,
-            rule="every history of <= %d operations from {calendar(k, H), calendar(k, H, t0, t1), calendar(k), calendar(Calendar(k, H, t0, t1)), "
-                 "calendar(<object returned 1 or 2 operations ago>)} over keys {'A','B',None} and holiday sets {H1={03-29,04-01}, "
-                 "H2={04-01,04-02}, {}}, states merged on (registry contents incl. range and populated tables, model, the last two returned "
-                 "objects); after every operation is_bday on 4 distinguishing days, add(t, 1), add(t, -1) and (for objects on a short range) "
-                 "add(t, 2) for 3 days t, on the returned object and on every registered key with specified holidays; non-trivial = histories that registered two different holiday sets (same key: overwrite, other key: cross-talk)" % depth,
-            bounds=dict(keys=3, holiday_sets=3, ops_per_state=32))
+            rule="every history of <= %d operations from {calendar(k, H), calendar(k, H, t0, t1), calendar(k), calendar(Calendar(k, H, t0, t1))} "
+                 "over keys {'A','B',None} and holiday sets {H1={03-29,04-01}, H2={04-01,04-02}, {}}, states merged on (registry contents "
+                 "incl. range and populated tables, model); after every operation is_bday on 4 distinguishing days, add(t, 1), add(t, -1) "
+                 "and (for objects on a short range) add(t, 2) for 3 days t, on the returned object and on every registered key with "
+                 "specified holidays; non-trivial = histories that registered two different holiday sets (same key: overwrite, other "
+                 "key: cross-talk)" % depth,
+            bounds=dict(keys=3, holiday_sets=3, ops_per_state=30))
 
     def initial(self):
         return [[]]
@@ -284,7 +286,6 @@ class Registry(BfsSuite):
         res += [['reg', k, h] for k in KEYS for h in ('H1', 'H2', 'E')]
         res += [['regr', k, h] for k in KEYS for h in ('H1', 'H2', 'E')]
         res += [['obj', k, h] for k in KEYS for h in ('H1', 'H2', 'E')]
-        res += [['back', j] for j in (1, 2) if len(history) >= j]
         return res
 
     def visit(self, history):
@@ -293,7 +294,6 @@ class Registry(BfsSuite):
         dr.calendars.clear()                      # module-level state: every replayed history starts from an empty registry
         out = Out()
         model = {}                                # key -> frozenset of holiday datetimes | UNSPEC      (last writer wins)
-        objs = []                                 # (real object, key, model value) returned by each op
         sets_seen = set()
         last_cls = 'initial'
         nh = len(history)
@@ -332,19 +332,12 @@ class Registry(BfsSuite):
                     o = calendar(Calendar(k, holidays=list(HSETS[h]), t0=R_T0, t1=R_T1))
                     model[k] = val
                 else:
-                    src, k, sval = objs[pos - op[1]]
-                    what = 'calendar(<object returned by op %d, key %r>)' % (pos - op[1], k)
-                    # the holidays it is registered with are the ones the object holds now (read as data)
-                    val = UNSPEC if sval == UNSPEC else frozenset(src.holidays.keys())
-                    cls = 'back-unspecified' if val == UNSPEC else ('back-noop' if model.get(k) == val else 'back-restore')
-                    o = calendar(src)
-                    model[k] = val
+                    raise ValueError('unknown op %r' % (op,))
             except Exception as e:
                 if last:
                     out.call()
                     out.viol('registry-raised', '%s after %s raised %s: %s' % (what, history[:-1], type(e).__name__, e), op=kind)
                 return out, None, False
-            objs.append((o, k, val))
             if val != UNSPEC:
                 sets_seen.add(val)
             # observations (also on non-last steps: they populate the lookup tables, which is part of the state)
@@ -381,7 +374,7 @@ class Registry(BfsSuite):
         out.cls(last_cls)
         if len(sets_seen) >= 2:
             out.nontrivial()
-        # canonical key: real registry + model + the last two returned objects
+        # canonical key: the real registry (holidays, weekend, range, tables populated?) + the model
         reg = []
         for k in KEYS:
             c = dr.calendars.get(k)
@@ -392,14 +385,10 @@ class Registry(BfsSuite):
             else:
                 reg.append([_kname(k), sorted(x.isoformat() for x in c.holidays), list(c.weekend), c.t0.isoformat(), c.t1.isoformat(),
                             c.get('dt2int') is not None, ms])
-        tail = []
-        for o, k, val in objs[-2:]:
-            tail.append([_kname(k), val if val == UNSPEC else sorted(x.isoformat() for x in val), sorted(x.isoformat() for x in o.holidays),
-                         o.t0.isoformat(), o.t1.isoformat(), o.get('dt2int') is not None, dr.calendars.get(k) is o])
         extra = [k for k in dr.calendars if k not in KEYS]
         if extra and nh:
             out.viol('registry-extra-key', 'history %s left unexpected keys %r in the registry' % (history, extra), op=history[-1][0])
-        return out, repr((reg, tail)), True
+        return out, repr(reg), True
 
 
 _EXP = {}
